@@ -356,6 +356,12 @@ func TestC16(t *testing.T) {
 			_, _ = w.Flush(p)
 		}
 		p.Close()
+		// every other case: the transport reports the end of the stream
+		// together with the last bytes it delivers
+		p.eofWithData = (n+maxRead+len(cuts))%2 == 1
+		if p.eofWithData {
+			label += ", EOF reported with the last bytes"
+		}
 		got, err := rd.ReadMessage(p)
 		atomic.AddInt64(&evals, 1)
 		if err != nil || !bytes.Equal(got, msg) {
@@ -470,13 +476,26 @@ func TestC16(t *testing.T) {
 			fail("emitted-length", fmt.Sprintf("%d bytes emitted, the record is %d bytes", s.buf.Len(), 18+len(msg)+16))
 			return
 		}
-		got, err := rd.ReadMessage(bytes.NewReader(s.buf.Bytes()))
+		if err := w.WriteMessage([]byte("next")); err != nil {
+			fail("write-after-flush", err.Error())
+			return
+		}
+		if _, err := w.Flush(s); err != nil {
+			fail("flush-after-flush", err.Error())
+			return
+		}
+		// the peer decrypts the record and the one after it (a write
+		// that was refused while the record was pending must not have
+		// touched the cipher state)
+		src := bytes.NewReader(s.buf.Bytes())
+		got, err := rd.ReadMessage(src)
 		if err != nil || !bytes.Equal(got, msg) {
 			fail("emitted-bytes", fmt.Sprintf("the emitted bytes do not decrypt to the record: err=%v", err))
 			return
 		}
-		if err := w.WriteMessage([]byte("next")); err != nil {
-			fail("write-after-flush", err.Error())
+		got, err = rd.ReadMessage(src)
+		if err != nil || string(got) != "next" {
+			fail("next-record-unreadable", fmt.Sprintf("the record written after the flush does not decrypt at the peer: err=%v got=%q", err, got))
 			return
 		}
 		if timeouts > 0 {
